@@ -82,9 +82,11 @@ type poolRun struct {
 	nextConn                   int
 	killedInHand               map[int]bool // connections killed while held by a connect (the former F-C17-2 situation)
 	reportedDead               map[int]bool
-	steps                      []string // Coq terms: (labels, observation)
-	ops                        []string // human-readable
-	viol                       []violation
+	// the harness lost track of a goroutine (quiescence detected too early): the trace proves nothing
+	imprecise bool
+	steps     []string // Coq terms: (labels, observation)
+	ops       []string // human-readable
+	viol      []violation
 	// what the trace exercised
 	nKill, nFail, nWindow, nLate, nInHandKill int
 }
@@ -167,6 +169,7 @@ func (r *poolRun) settle(newTid, okTask int) {
 		tid := newTid
 		if tid < 0 || i > r.seenF1 {
 			tid = 500000 + i
+			r.imprecise = true // a goroutine parked that no step accounts for: an earlier settle was premature
 		}
 		r.f1Of[tid] = i
 	}
@@ -175,6 +178,7 @@ func (r *poolRun) settle(newTid, okTask int) {
 		k := okTask
 		if k < 0 || i > r.seenHave {
 			k = 500000 + i
+			r.imprecise = true
 		}
 		r.haveOf[k] = i
 	}
